@@ -45,7 +45,7 @@ type zoneEpoch struct {
 type zone struct {
 	start   time.Time
 	epochs  []zoneEpoch
-	aQuery  simrt.Counter // A queries for svc.test.
+	aQuery  simrt.Counter // A queries for 3svc.test.
 	queries simrt.Counter // all queries
 }
 
@@ -80,7 +80,7 @@ func serveDNS(c net.Conn, z *zone) {
 		m.Authoritative, m.RecursionAvailable = true, true // an empty answer without these is a "lame referral" and is retried
 		name := strings.ToLower(q.Question[0].Name)
 		z.queries.Inc()
-		if name == "svc.test." && q.Question[0].Qtype == dns.TypeA {
+		if name == "3svc.test." && q.Question[0].Qtype == dns.TypeA {
 			z.aQuery.Inc()
 		}
 		addrs, ok := z.at(time.Now())[name]
@@ -220,11 +220,11 @@ func runDial(tt *testing.T, tape *simrt.Tape, keep bool) (out simrt.Outcome) {
 			ttl = -1 // documented: a negative ttl disables caching altogether
 		}
 		z := &zone{start: w.Start} // same time origin as the controller
-		first := map[string][]string{"svc.test.": pick(), "alt1.test.": pick(), "alt2.test.": pick()}
+		first := map[string][]string{"3svc.test.": pick(), "alt1.test.": pick(), "alt2.test.": pick()}
 		z.epochs = []zoneEpoch{{0, first}}
 		changes := ttl > 0 && tape.Prob(1, 2)
 		if changes {
-			second := map[string][]string{"svc.test.": pick(), "alt1.test.": first["alt1.test."], "alt2.test.": first["alt2.test."]}
+			second := map[string][]string{"3svc.test.": pick(), "alt1.test.": first["alt1.test."], "alt2.test.": first["alt2.test."]}
 			z.epochs = append(z.epochs, zoneEpoch{time.Duration(20+tape.Choose(20)) * time.Second, second})
 		}
 		net.DefaultResolver = &net.Resolver{PreferGo: true, Dial: func(ctx context.Context, network, address string) (net.Conn, error) {
@@ -238,7 +238,7 @@ func runDial(tt *testing.T, tape *simrt.Tape, keep bool) (out simrt.Outcome) {
 		var repl, moreSources []string
 		switch mode {
 		case "connect-to", "dns+connect-to":
-			mapped = "svc.test:80"
+			mapped = "3svc.test:80"
 			k := 1 + tape.Choose(4)
 			for i := 0; i < k; i++ {
 				if mode == "dns+connect-to" && tape.Prob(1, 2) {
@@ -264,7 +264,7 @@ func runDial(tt *testing.T, tape *simrt.Tape, keep bool) (out simrt.Outcome) {
 			}
 		case "connect-to+dns":
 			// ConnectTo sits below the DNS layer: it sees resolved ip:port pairs
-			mapped = net.JoinHostPort(first["svc.test."][0], "80")
+			mapped = net.JoinHostPort(first["3svc.test."][0], "80")
 			k := 1 + tape.Choose(3)
 			for i := 0; i < k; i++ {
 				repl = append(repl, fmt.Sprintf("10.9.9.%d:%d", i+1, 8000+i))
@@ -310,7 +310,7 @@ func runDial(tt *testing.T, tape *simrt.Tape, keep bool) (out simrt.Outcome) {
 		synctest.Wait()
 		w.Activate()
 		dial := tr.DialContext
-		targets := append([]string{"svc.test:80", "10.1.1.1:8080"}, moreSources...)
+		targets := append([]string{"3svc.test:80", "10.1.1.1:8080"}, moreSources...)
 		pattern := tape.Choose(3) // 0: mostly the first target, 1: strict rotation over all targets, 2: random
 		nworkers := 1 + tape.Biased(6, 1, 3)
 		if tape.Prob(1, 25) {
@@ -319,11 +319,11 @@ func runDial(tt *testing.T, tape *simrt.Tape, keep bool) (out simrt.Outcome) {
 		ndials := 1 + tape.Choose(60)
 		long := tape.Prob(1, 6)
 		if long {
-			ndials = 200*len(first["svc.test."]) + 50
+			ndials = 200*len(first["3svc.test."]) + 50
 		}
 		refuseRate := []int{0, 0, 5, 30}[tape.Choose(4)]
-		w.Log.Addf("mode=%s ttl=%d set=%v changes=%v map=%v workers=%d dials=%d arms=%v", mode, ttl, first["svc.test."], changes, cmap, nworkers, ndials, arms)
-		sample = map[string]any{"mode": mode, "dns_ttl": ttl.String(), "resolved_set": first["svc.test."], "set_changes_at_refresh": changes, "connect_to": cmap, "workers": nworkers, "dials": ndials}
+		w.Log.Addf("mode=%s ttl=%d set=%v changes=%v map=%v workers=%d dials=%d arms=%v", mode, ttl, first["3svc.test."], changes, cmap, nworkers, ndials, arms)
+		sample = map[string]any{"mode": mode, "dns_ttl": ttl.String(), "resolved_set": first["3svc.test."], "set_changes_at_refresh": changes, "connect_to": cmap, "workers": nworkers, "dials": ndials}
 		for i := 0; i < nworkers; i++ {
 			go dialWorker(dial, targets, i)
 		}
@@ -479,7 +479,7 @@ func runDial(tt *testing.T, tape *simrt.Tape, keep bool) (out simrt.Outcome) {
 			// what the ttl value means, seen at the DNS server (fake time)
 			svcDials := 0
 			for _, d := range order {
-				if d.target == "svc.test:80" {
+				if d.target == "3svc.test:80" {
 					svcDials++
 				}
 			}
@@ -553,17 +553,17 @@ func withPort(ips []string, port string) map[string]bool {
 
 func checkDialHistory(fail func(string, string, ...any), stats map[string]int, mode string, ttl time.Duration, z *zone, first map[string][]string, changes bool,
 	cmap map[string][]string, mapped string, repl []string, order []*outerDial, long bool, strict bool) {
-	// allowed final addresses for a dial to svc.test:80, per mode; when the zone changes at a refresh,
+	// allowed final addresses for a dial to 3svc.test:80, per mode; when the zone changes at a refresh,
 	// the union of the old and the new set is allowed from the change on (a refresh happens within ttl of it)
 	svc := func(at time.Duration) map[string]bool {
 		if changes && strict && at >= z.epochs[1].from+ttl+time.Nanosecond {
 			// a refresh tick has fired (and, nobody being held at a breakpoint, completed) since the
 			// answer changed: only the new set is current
-			return withPort(z.epochs[1].sets["svc.test."], "80")
+			return withPort(z.epochs[1].sets["3svc.test."], "80")
 		}
-		al := withPort(first["svc.test."], "80")
+		al := withPort(first["3svc.test."], "80")
 		if changes && at >= z.epochs[1].from {
-			for k := range withPort(z.epochs[1].sets["svc.test."], "80") {
+			for k := range withPort(z.epochs[1].sets["3svc.test."], "80") {
 				al[k] = true
 			}
 		}
@@ -603,7 +603,7 @@ func checkDialHistory(fail func(string, string, ...any), stats map[string]int, m
 			fail("C18.dial-result", "dial #%d to %s reported success although all %d attempts were refused", i+1, d.target, d.refused)
 			return
 		}
-		if rs, ok := cmap[d.target]; ok && d.target != "svc.test:80" {
+		if rs, ok := cmap[d.target]; ok && d.target != "3svc.test:80" {
 			// one of the additional mapped sources (connect-to mode only)
 			if len(d.attempts) != 1 || !contains(rs, d.attempts[0]) {
 				fail("C18.foreign-address", "dial #%d to the mapped address %s reached the dialer as %q (replacements %v)", i+1, d.target, d.attempts, rs)
@@ -615,7 +615,7 @@ func checkDialHistory(fail func(string, string, ...any), stats map[string]int, m
 			extraUse[d.target][d.attempts[0]]++
 			continue
 		}
-		if d.target != "svc.test:80" {
+		if d.target != "3svc.test:80" {
 			// unmapped, unresolved literal address: must pass through unchanged, exactly one attempt
 			if len(d.attempts) != 1 || d.attempts[0] != d.target {
 				fail("C18.passthrough", "dial to the unmapped address %s reached the dialer as %q", d.target, d.attempts)
@@ -763,17 +763,17 @@ func checkDialHistory(fail func(string, string, ...any), stats map[string]int, m
 	}
 	if mode == "dns" && long && !changes {
 		// every resolved address keeps being used: all of them within the run, and in its last quarter too
-		set := withPort(first["svc.test."], "80")
+		set := withPort(first["3svc.test."], "80")
 		last := map[string]bool{}
 		svcDials := 0
 		for _, d := range order {
-			if d.target == "svc.test:80" {
+			if d.target == "3svc.test:80" {
 				svcDials++
 			}
 		}
 		seen := 0
 		for _, d := range order {
-			if d.target != "svc.test:80" {
+			if d.target != "3svc.test:80" {
 				continue
 			}
 			seen++
